@@ -139,8 +139,17 @@ def suite_dilute(ctx, case):
     kT = case['kT']; clo = case['clo']; hc = case['hc']
     errs_g = []; errs_b = []; drs = []
     for N, dr in case['grids']:
+        # in the limit of vanishing density gamma = h - c -> 0 IS the solution: the self-consistency function at gamma = 0 is O(rho)
+        # (<= 1.6e4 rho over all shipped potentials / closures / kT on the unchanged tree, also at rho = 1e-20); this needs no converged solve
+        s0 = pyPRISM.System([T1], kT=kT); s0.domain = pyPRISM.Domain(length=N, dr=dr); s0.density[T1] = case.get('rho', 1e-6); s0.diameter[T1] = 1.0
+        s0.potential[T1, T1] = mk_pot(case['pot']); s0.closure[T1, T1] = G.mk_clo([clo, hc]); s0.omega[T1, T1] = pyPRISM.omega.SingleSite()
+        with np.errstate(all='ignore'):
+            y0 = s0.createPRISM().cost(np.zeros(N))
+        ctx.pred('dilute', case, bool(np.all(np.isfinite(y0))) and float(np.max(np.abs(y0))) <= 1e5 * case.get('rho', 1e-6),
+                 '%s/%s kT=%g rho=%g: the self-consistency function at gamma = 0 is %.3g, not O(rho): the dilute limit g = exp(-u/kT) is not approached' %
+                 (case['pot'][0], clo, kT, case.get('rho', 1e-6), float(np.max(np.abs(y0)))), key='C02:dilute-g')
         U = mk_pot(case['pot'])
-        p = solve1(None, dr, N, hc, kT=kT, pot=U, clo=clo, rho=1e-6, kT_assign=case.get('kT_assign', False))
+        p = solve1(None, dr, N, hc, kT=kT, pot=U, clo=clo, rho=case.get('rho', 1e-6), kT_assign=case.get('kT_assign', False))
         ctx.validation_runs += 1
         if p is None:
             ctx.dist['dilute:not-converged'] += 1; return
@@ -216,8 +225,8 @@ def generate(ctx):
     rng = ctx.rng
     etas = [0.05, 0.15, 0.3, 0.45] if ctx.quick() else [0.05, 0.1, 0.15, 0.2, 0.25, 0.3, 0.35, 0.4, 0.45]
     for eta in etas:
-        rmax = rng.choice([12.8, 16.0])
-        N0 = rng.choice([128, 160]) if rmax == 16.0 else 128
+        rmax = rng.choice([12.8, 16.0, 15.4, 13.2])
+        N0 = rng.choice([128, 160]) if rmax == 16.0 else 128 if rmax == 12.8 else 154 if rmax == 15.4 else 132      # 154 = 2*7*11, 132 = 4*3*11: not 5-smooth
         case = {'eta': eta, 'rmax': rmax, 'N0': N0, 'Ns': [N0, 2 * N0] + ([] if ctx.quick() else [4 * N0]), 'hc': rng.random() < 0.5, 'd': rng.choice([1.0, 0.8, 1.25, 2.0])}
         ctx.case('wertheim', case, True, tags=['eta:%g' % eta, 'hc:%s' % case['hc']]); suite_wertheim(ctx, case)
     for _ in range(ctx.n(3, 20)):
@@ -231,7 +240,7 @@ def generate(ctx):
         hc = True if clo == 'msa' else (rng.random() < 0.5 if hard else False)
         if clo == 'msa' and not hard: continue
         kT = rng.choice([0.7, 1.0, 2.5])
-        case = {'pot': pot, 'clo': clo, 'hc': hc, 'kT': kT, 'grids': [[128, 0.1], [256, 0.05]], 'kT_assign': rng.random() < 0.5}
+        case = {'pot': pot, 'clo': clo, 'hc': hc, 'kT': kT, 'grids': [[128, 0.1], [256, 0.05]], 'kT_assign': rng.random() < 0.5, 'rho': rng.choice([1e-6, 1e-9, 1e-12, 1e-18, 1e-18, 1e-20])}
         ctx.case('dilute', case, True, tags=['pot:' + pot[0], 'clo:' + clo, 'kT:%g' % kT]); suite_dilute(ctx, case)
     for _ in range(ctx.n(40, 300)):
         sd = G.gen_system(rng, maxn=1, maxL=32)
